@@ -2,10 +2,10 @@
 
 package docx
 
-import "strconv"
-}
-
-import "encoding/xml"
+import (
+	"encoding/xml"
+	"strconv"
+)
 
 // Verification hooks (add-only): read access to the parsed element list in
 // document order, which has no exported accessor.
